@@ -230,7 +230,7 @@ def run(ctx):
         12 if ctx.thorough else 6, 4 if ctx.thorough else 3, 14 if ctx.thorough else 10, len(MR_SCRIPTS)))
     ctx.run_parallel('shard_random', extra=(ctx.pick(300, 4000),))
     if ctx.thorough or os.environ.get('VERIF_FUZZ'):
-        ctx.run_atheris('repeat', ctx.pick(300, 4000), guided=True)
+        ctx.run_atheris('repeat', ctx.pick(300, 1500), guided=True)
 
 
 # coverage-guided layer (thorough tier): the Hypothesis strategy under libFuzzer (vlib/fuzz.py, guided mode)
